@@ -19,7 +19,9 @@ RULE = ('abstract records of the seven table types are drawn field by field from
         '0..16 (+ up to 30 bytes) on every record type that has one (BCD plus digits drawn from all sixteen codes of '
         'section 43.15, biased to Dh / Eh / Fh; directed strings with those codes in the high and in the low nibble on '
         'all five record types), every channel nibble 0..15 x low nibbles 0, 1, 5, 10, 15 of byte 9 of the FRU device '
-        'locator (reserved bits) and of byte 8 of the MC confirmation record (device revision), all 256 type bytes '
+        'locator (reserved bits) and of byte 8 of the MC confirmation record (device revision), all 64 combinations of '
+        'key byte 8 of the FRU device locator (logical/physical flag x access LUN x private bus id), all 16 channel '
+        'numbers x 4 owner LUNs of key byte 7 of the full, compact and event-only sensor record, all 256 type bytes '
         '(dispatch), every truncation of sample records (error kinds, tie only).  A case is distinct by its encoded bytes and non-trivial when '
         'the record has a body.')
 ASSUMPTIONS = [
@@ -56,9 +58,18 @@ ASSUMPTIONS = [
     'pinned in Spec.Sdr.bcdChar / bcdPlusSdr and compared with the generated one (bcd_plus_sdr_table)',
     'id-string length is the number of data bytes ([4:0] of the type/length byte, bit 5 reserved = 0); a 6-bit string '
     'of 4k+3 characters reads back with one trailing space (three bytes always hold four characters)',
-    'the eight deviations of the ORIGINAL pinned source stay in the model as Variant flags (accuracy shift, rate unit, '
+    'the record key is reported sub-field by sub-field as the tables divide its bytes: key byte 7 of tables 43-1 / 43-2 / '
+    '43-3 as `channel_number` [7:4] and `owner_lun` [1:0] ([3:2] reserved, encoded as 0), key byte 8 of table 43-7 as '
+    '`logical_physical` (the FLAG, bit 7), `access_lun` [4:3] and `private_bus_id` [2:0] ([6:5] reserved, encoded as 0; '
+    'gen_byte_fields covers the expressions for all 256 byte values); `channel_number` of the sensor records, `access_lun` '
+    'and `private_bus_id` are attributes the repaired library sets (the names follow its locator classes); an OEM record '
+    'goes through the same _common_record_key and so gains a (meaningless) `channel_number` next to its `owner_lun`: '
+    'model-only attribute as before; byte 8 of table 43-8 (power state notification / global initialization) is not a key '
+    'byte: untouched',
+    'the ten deviations of the ORIGINAL pinned source stay in the model as Variant flags (accuracy shift, rate unit, '
     'modifier unit, id-string type code, BCD+ on arrays, 6-bit partial group, FRU BCD table used for SDR id strings, raw '
-    'byte as channel number of the FRU device locator / MC confirmation record): *_counterexample theorems are about the '
+    'byte as channel number of the FRU device locator / MC confirmation record, raw key byte 8 as logical_physical of the '
+    'FRU device locator, channel number of the sensor record key dropped): *_counterexample theorems are about the '
     'frozen variants; the generated expressions and tables are equated with Variant.intended (gen_*, '
     'bcd_plus_sdr_table); the run probes the real code with one witness per flag, so a present / returning defect is '
     'reported with a concrete input while the gen_* theorems stop building',
@@ -82,7 +93,9 @@ CAP_CODE = {'ignore_sensor': 0x80, 'auto_rearm': 0x40,
 # signatures of the deviations carried as Variant flags (order = flag order of the driver)
 FLAG_SIG = ['C16:full:accuracy', 'C16:full:rate_unit', 'C16:full:modifier_unit',
             'C16:idstring:type-code', 'C16:idstring:bcdplus', 'C16:idstring:6bit-partial-group',
-            'C16:idstring:bcdplus-sdr-codes', 'C16:fru-locator:channel_number + C16:mc-confirmation:channel_number']
+            'C16:idstring:bcdplus-sdr-codes', 'C16:fru-locator:channel_number + C16:mc-confirmation:channel_number',
+            'C16:fru-locator:logical_physical + access_lun + private_bus_id',
+            'C16:full:channel_number + C16:compact:channel_number + C16:event-only:channel_number']
 NFLAGS = len(FLAG_SIG)
 IDEAL = '0' * NFLAGS
 
@@ -169,8 +182,8 @@ def _err_tag(name):
 # ---------------------------------------------------------------------------------------------
 # hand-built probe records (bytes written out from table 43-1; no library or driver helper)
 
-def _probe_full(units1=0, b_acc=0, acc_exp=0, idbytes=(0xC1, 0x41)):
-    body = [0x20, 0x00, 0x01, 0x07, 0x60, 0x7f, 0x00, 0x01, 0x01,
+def _probe_full(units1=0, b_acc=0, acc_exp=0, idbytes=(0xC1, 0x41), key7=0x00):
+    body = [0x20, key7, 0x01, 0x07, 0x60, 0x7f, 0x00, 0x01, 0x01,
             0, 0, 0, 0, 0, 0, units1, 0, 0, 0,
             1, 0, 0, b_acc, acc_exp, 0, 0,
             0, 0, 0, 0, 0, 0, 0, 0, 0, 0, 0, 0, 0, 0, 0, 0]
@@ -179,9 +192,9 @@ def _probe_full(units1=0, b_acc=0, acc_exp=0, idbytes=(0xC1, 0x41)):
     return [0x01, 0x00, 0x51, 0x01, len(rest)] + rest
 
 
-def _probe_fru(ch_byte=0x70):
-    """FRU device locator, table 43-7, written out by hand; byte 9 = ch_byte."""
-    rest = [0x20, 0x01, 0x80, ch_byte, 0x00, 0x10, 0x02, 0xc2, 0x61, 0x00, 0xC1, 0x46]
+def _probe_fru(ch_byte=0x70, access_byte=0x80):
+    """FRU device locator, table 43-7, written out by hand; byte 8 = access_byte, byte 9 = ch_byte."""
+    rest = [0x20, 0x01, access_byte, ch_byte, 0x00, 0x10, 0x02, 0xc2, 0x61, 0x00, 0xC1, 0x46]
     return [0x02, 0x00, 0x51, 0x11, len(rest)] + rest
 
 
@@ -214,6 +227,13 @@ def probe():
     # channel 7 in byte 9 [7:4] of the FRU device locator; channel 2 / device revision 5 in byte 8 of the confirmation record
     decide((get(_probe_fru(0x70), 'channel_number'), get(_probe_conf(0x25), 'channel_number')),
            (('ok', 7), ('ok', 2)), (('ok', 112), ('ok', 37)))
+    # key byte 8 of the FRU device locator = 95h: logical (bit 7), access LUN 2 ([4:3]), private bus id 5 ([2:0])
+    a = _probe_fru(access_byte=0x95)
+    decide((get(a, 'logical_physical'), get(a, 'access_lun'), get(a, 'private_bus_id')),
+           (('ok', 1), ('ok', 2), ('ok', 5)), (('ok', 0x95), ('ok', 'MISSING'), ('ok', 'MISSING')))
+    # key byte 7 of a sensor record = 52h: channel number 5 ([7:4]), owner LUN 2 ([1:0])
+    k = _probe_full(key7=0x52)
+    decide((get(k, 'channel_number'), get(k, 'owner_lun')), (('ok', 5), ('ok', 2)), (('ok', 'MISSING'), ('ok', 2)))
     return out, raw
 
 
@@ -276,21 +296,25 @@ def gen_full(rng, ids=None, **over):
     return 'spec full %s %s' % (' '.join(str(f[k]) for k in order), ids or gen_id(rng)), f
 
 
-def gen_compact(rng, ids=None):
-    v = [_u(rng, 16), rng.choice([0x51, _u(rng, 8)]), _u(rng, 8), _below(rng, 16), _below(rng, 4), _u(rng, 8),
+def gen_compact(rng, ids=None, ch=None, lun=None):
+    v = [_u(rng, 16), rng.choice([0x51, _u(rng, 8)]), _u(rng, 8), _below(rng, 16) if ch is None else ch,
+         _below(rng, 4) if lun is None else lun, _u(rng, 8),
          _u(rng, 8), _u(rng, 8), _u(rng, 8), _u(rng, 8), _u(rng, 8), _u(rng, 8), _u(rng, 16), _u(rng, 16),
          _u(rng, 16), _u(rng, 8), _u(rng, 8), _u(rng, 8), _u(rng, 16), _u(rng, 8), _u(rng, 8), _u(rng, 8)]
     return 'spec compact %s %s' % (' '.join(map(str, v)), ids or gen_id(rng)), None
 
 
-def gen_event(rng, ids=None):
-    v = [_u(rng, 16), rng.choice([0x51, _u(rng, 8)]), _u(rng, 8), _below(rng, 16), _below(rng, 4), _u(rng, 8),
+def gen_event(rng, ids=None, ch=None, lun=None):
+    v = [_u(rng, 16), rng.choice([0x51, _u(rng, 8)]), _u(rng, 8), _below(rng, 16) if ch is None else ch,
+         _below(rng, 4) if lun is None else lun, _u(rng, 8),
          _u(rng, 8), _u(rng, 8), _u(rng, 8), _u(rng, 8), _u(rng, 16), _u(rng, 8)]
     return 'spec event %s %s' % (' '.join(map(str, v)), ids or gen_id(rng)), None
 
 
-def gen_fru(rng, ids=None, ch=None, chlow=None):
-    v = [_u(rng, 16), rng.choice([0x51, _u(rng, 8)]), _u(rng, 7), _u(rng, 8), _u(rng, 8),
+def gen_fru(rng, ids=None, ch=None, chlow=None, access=None):
+    """access = (logical/physical flag, access LUN, private bus id) of key byte 8"""
+    lg, alun, bus = access if access is not None else (_below(rng, 2), _below(rng, 4), _below(rng, 8))
+    v = [_u(rng, 16), rng.choice([0x51, _u(rng, 8)]), _u(rng, 7), _u(rng, 8), lg, alun, bus,
          _below(rng, 16) if ch is None else ch, _below(rng, 16) if chlow is None else chlow, _u(rng, 8),
          _u(rng, 8), _u(rng, 8), _u(rng, 8), _u(rng, 8)]
     return 'spec fru %s %s' % (' '.join(map(str, v)), ids or gen_id(rng)), None
@@ -416,9 +440,14 @@ class _Run(object):
             if id_enc == 'b' and n and any(int(d) >= 13 for d in toks[-1][2:].split(',')):
                 ctx.count('id:bcdplus:codes-D/E/F:' + kind)
         if kind in ('SdrFruDeviceLocator', 'SdrManagementControllerConfirmationRecord') and toks[1] in ('fru', 'conf'):
-            ch, low = (int(toks[7]), int(toks[8])) if toks[1] == 'fru' else (int(toks[6]), int(toks[7]))
+            ch, low = (int(toks[9]), int(toks[10])) if toks[1] == 'fru' else (int(toks[6]), int(toks[7]))
             ctx.count('channel:%s:%s' % (toks[1], 'low-nibble-nonzero' if low else 'low-nibble-zero'))
             ctx.extra.setdefault('channel_nibbles_seen', {}).setdefault(toks[1], set()).add(ch)
+        if toks[1] == 'fru' and kind == 'SdrFruDeviceLocator':
+            ctx.extra.setdefault('fru_access_bytes_seen', set()).add((int(toks[6]), int(toks[7]), int(toks[8])))
+        if toks[1] in ('full', 'compact', 'event') and kind.endswith('SensorRecord'):
+            ctx.extra.setdefault('sensor_key_channel_lun_seen', {}).setdefault(toks[1], set()).add(
+                (int(toks[5]), int(toks[6])))
         want = _fields(fields)
         # ---- theorem instance: the intended model equals the specification's view
         ideal_fields = ideal[3:].split(' | ')[0] if ideal.startswith('ok ') else ideal
@@ -479,6 +508,20 @@ def _witnesses(run, rng):
                 am=0, dm=0, rm=0, fmt=0, rate=0, mod=0, pct=0, bu=0, mu=0, lin=0, m=1, tol=0, b=0, acc=0, accx=0,
                 dir=0, rexp=0, bexp=0, af=0, nom=0, nmax=0, nmin=0, smax=0, smin=0, unr=0, ucr=0, unc=0, lnr=0,
                 lcr=0, lnc=0, ph=0, nh=0, oem=0)
+    # key byte 8 of the FRU device locator: [7] logical/physical flag, [4:3] access LUN, [2:0] private bus id - a
+    # PHYSICAL device on private bus 3 first (the flag must read 0), then flag + LUN + bus id all non-zero
+    lines = [gen_fru(rng, ids='a:70', ch=0, chlow=0, access=(0, 0, 3))[0],
+             gen_fru(rng, ids='a:70', ch=7, chlow=0, access=(1, 2, 5))[0],
+             gen_fru(rng, ids='a:70', ch=0, chlow=0, access=(0, 3, 0))[0],
+             gen_fru(rng, ids='a:70', ch=15, chlow=0, access=(1, 3, 7))[0]]
+    run.judge('witness', lines, how_cycle=('array',))
+    # key byte 7 of the three sensor records: [7:4] channel number, [1:0] owner LUN
+    f = dict(base)
+    f.update(ch=5, lun=1)
+    lines = [gen_full(rng, ids='a:65', **f)[0], gen_compact(rng, ids='a:65', ch=5, lun=1)[0],
+             gen_event(rng, ids='a:65', ch=5, lun=1)[0], gen_compact(rng, ids='a:65', ch=15, lun=0)[0],
+             gen_event(rng, ids='a:65', ch=8, lun=3)[0]]
+    run.judge('witness', lines, how_cycle=('array',))
     lines = []
     for over in (dict(acc=64), dict(acc=1023), dict(rate=1), dict(rate=7), dict(mod=1), dict(mod=3),
                  dict(fmt=3, rate=7, mod=3, pct=1), dict(m=-1), dict(m=-512), dict(m=511), dict(b=-1), dict(b=-512),
@@ -542,6 +585,19 @@ def run(ctx):
             lines.append(gen_conf(rng, ch=ch, rev=low)[0])
     run_.judge('channel-nibbles', lines)
 
+    # ---- key byte 8 of the FRU device locator: all 2 x 4 x 8 combinations of flag, access LUN, private bus id
+    run_.judge('fru-access-byte', [gen_fru(rng, access=(lg, alun, bus))[0]
+                                   for lg in range(2) for alun in range(4) for bus in range(8)])
+
+    # ---- key byte 7 of the sensor records: all 16 channel numbers x 4 owner LUNs on each of the three types
+    lines = []
+    for ch in range(16):
+        for lun in range(4):
+            lines.append(gen_full(rng, ch=ch, lun=lun)[0])
+            lines.append(gen_compact(rng, ch=ch, lun=lun)[0])
+            lines.append(gen_event(rng, ch=ch, lun=lun)[0])
+    run_.judge('sensor-key-channel', lines)
+
     # ---- seeded records of every type
     n = 1 if not big else 12
     lines = [gen_full(rng)[0] for _ in range(900 * n)]
@@ -567,6 +623,9 @@ def run(ctx):
     run_.recheck()
     ctx.extra['kept_results_re_read'] = len(run_.kept)
     ctx.extra['channel_nibbles_seen'] = dict((k, sorted(v)) for k, v in ctx.extra.get('channel_nibbles_seen', {}).items())
+    ctx.extra['fru_access_bytes_seen'] = len(ctx.extra.get('fru_access_bytes_seen', ()))
+    ctx.extra['sensor_key_channel_lun_seen'] = dict(
+        (k, len(v)) for k, v in ctx.extra.get('sensor_key_channel_lun_seen', {}).items())
     ctx.extra['signatures_seen'] = sorted(run_.sig_seen)
 
 
